@@ -369,7 +369,7 @@ func generate(c *drv.Ctx) {
 	// pool x {GET, POST} x base spellings; every target of <= 3 segments over a segment pool.
 	pool := []tmpl{{tA, false}, {tAX, false}, {tAB, false}, {tXB, false}}
 	if thorough {
-		pool = append(pool, tmpl{tAXCY, false}, tmpl{nil, false}, tmpl{tA, true}, tmpl{tX, false}, tmpl{tXY, false})
+		pool = append(pool, tmpl{tAXCY, false}, tmpl{nil, false})
 	}
 	var opPool []Op
 	for _, t := range pool {
@@ -379,15 +379,16 @@ func generate(c *drv.Ctx) {
 	}
 	bases := []Base{baseSpellings[0], baseSpellings[2], baseSpellings[3]}
 	if thorough {
-		bases = []Base{baseSpellings[0], baseSpellings[1], baseSpellings[2], baseSpellings[3], baseSpellings[6]}
+		bases = []Base{baseSpellings[0], baseSpellings[1], baseSpellings[2], baseSpellings[3]}
 	}
 	segPoolDeep := []Target{plain("a"), plain("b"), plain("api"), plain(":"), {'a', escU('/'), 'b'}, plain("..")}
 	segPoolWide := []Target{plain("a"), plain("b"), plain("c"), plain("api"), plain(":"), {'a', escU('/'), 'b'}, {escU('%')},
 		plain("."), plain(".."), {}, {escL('.'), escL('.')}, plain("*"), {escU('#')}, plain(";="), {escU('a')}}
 	if thorough {
-		segPoolDeep = append(segPoolDeep, Target{escU('%')}, Target{}, plain("c"))
+		segPoolDeep = append(segPoolDeep, Target{}, plain("c"))
 	}
-	methodsAll := []string{"GET", "get", "Post", "PUT"}
+	deepMethods := []string{"GET", "get", "Post", "PUT", "pOST"}
+	wideMethods := []string{"*", "GET", "get", "Post", "PUT"}
 	nExh := 0
 	for _, b := range bases {
 		for i := range opPool {
@@ -401,11 +402,34 @@ func generate(c *drv.Ctx) {
 				}
 				a := API{Base: b, Ops: ops}
 				// deep: <= 3 segments, one method spelling per target (cycling)
-				c.Case(descriptor(a, "routes", nil, segPoolDeep, 3, []string{"GET", "get", "Post", "PUT", "pOST"}))
+				c.Case(descriptor(a, "routes", nil, segPoolDeep, 3, deepMethods))
 				// wide: <= 2 segments over the wide pool, every method spelling
-				c.Case(descriptor(a, "routes", nil, segPoolWide, 2, append([]string{"*"}, methodsAll...)))
+				c.Case(descriptor(a, "routes", nil, segPoolWide, 2, wideMethods))
 				nExh += 2
 			}
+		}
+	}
+	// three-operation APIs over three methods and more templates: a seeded sample, each with the deep enumeration
+	{
+		pool3 := []tmpl{{tA, false}, {tAX, false}, {tAB, false}, {tXB, false}, {tAXCY, false}, {nil, false}, {tA, true}, {tX, false}, {tXY, false}}
+		var ops3 []Op
+		for _, t := range pool3 {
+			for _, m := range []string{"GET", "POST", "PUT"} {
+				ops3 = append(ops3, Op{Method: m, Segs: t.segs, Trail: t.trail})
+			}
+		}
+		nTri := 20
+		if thorough {
+			nTri = 150
+		}
+		for n := 0; n < nTri; n++ {
+			ops := []Op{ops3[c.Rng.Intn(len(ops3))], ops3[c.Rng.Intn(len(ops3))], ops3[c.Rng.Intn(len(ops3))]}
+			if !wellFormed(ops) {
+				continue
+			}
+			a := API{Base: baseSpellings[c.Rng.Intn(len(baseSpellings))], Ops: ops}
+			via := []string{"routes", "api"}[n%2]
+			c.Case(descriptor(a, via, nil, segPoolDeep, 3, deepMethods))
 		}
 	}
 	c.Extra["exhaustive_cases"] = nExh
